@@ -47,6 +47,7 @@ type Interp struct {
 	ExcludedSigs map[string]int
 	done         bool // the worlds were consumed by a final operation; skip the end-of-case checks
 	nestedDone   map[string]int
+	keepSel      []int            // selection of the query a batch callback opens and keeps (qOpenKeep)
 	everRel      map[string][]int // relation layouts populated at some point: layout -> targets
 	shrinkAt     int
 	saved        *savedDump      // entity dump kept for a later load
@@ -511,6 +512,23 @@ func (it *Interp) opNewBatch(op *Op) {
 		it.evAt = it.M.Ents
 		it.batch = true
 	}
+	// a query that the batch callback opens and leaves open beyond the end of the operation
+	var keep *Op
+	var keepSel []int
+	if valid && op.N > 0 {
+		for i := range op.Acts {
+			if op.Acts[i].K == "qOpenKeep" {
+				keep = &op.Acts[i]
+			}
+		}
+	}
+	if keep != nil {
+		if it.M.OpenQ >= 62 {
+			panic("bad op: qOpenKeep without free lock bits")
+		}
+		keepSel = it.M.Select(it.M.Filters[keep.F], nil)
+		it.keepSel = keepSel
+	}
 	it.run(op, valid, func(b *Backend) {
 		if !valid {
 			it.execNewBatch(b, op, list, first)
@@ -521,6 +539,10 @@ func (it *Interp) opNewBatch(op *Op) {
 			b.pend = append(b.pend, first+k)
 		}
 		it.execNewBatch(b, op, list, first)
+		if keep != nil && b.openQ[keep.Q] == nil {
+			// this backend ran the batch without a batch callback (policy ExpandBatches): open the query now
+			it.openKept(b, keep, keepSel)
+		}
 		if len(b.pend) > 0 {
 			// discover the handles by scanning the world
 			q := b.all.Query()
@@ -539,6 +561,28 @@ func (it *Interp) opNewBatch(op *Op) {
 			b.tr("newBatch %v", b.handlesOf(l))
 		}
 	})
+	if keep != nil {
+		if it.M.Open == nil {
+			it.M.Open = map[int]*mOpenQuery{}
+		}
+		it.M.Open[keep.Q] = &mOpenQuery{filter: keep.F, remaining: len(keepSel), total: len(keepSel)}
+		it.M.OpenQ++
+		it.M.Filters[keep.F].Queried = true
+		it.count("query-opened-in-batch-callback-and-kept-open")
+	}
+}
+
+// openKept opens the query of a qOpenKeep act on backend b (from inside the batch callback).
+func (it *Interp) openKept(b *Backend, a *Op, sel []int) {
+	q := b.openQueryOn(it.M, a.F, nil)
+	exp := map[int]bool{}
+	for _, s := range sel {
+		exp[s] = true
+	}
+	b.openQ[a.Q] = &openQuery{q: q, expected: exp, filter: a.F}
+	if c := q.Count(); c != len(sel) {
+		fail("query|open|count", "%s step %d: query %d opened inside a batch callback counts %d, model %d", b.Name, it.Step, a.Q, c, len(sel))
+	}
 }
 
 func (it *Interp) execNewBatch(b *Backend, op *Op, list []int, first int) {
@@ -1787,6 +1831,10 @@ func (it *Interp) nested(b *Backend) {
 	it.nestedDone[key] = it.Step
 	for i := range acts {
 		a := &acts[i]
+		if a.K == "qOpenKeep" {
+			it.openKept(b, a, it.keepSel)
+			continue
+		}
 		p := try(func() { it.rawStructural(b, a) })
 		if p == nil {
 			fail("lock|"+op.K+"|nested-"+a.K+"-accepted", "%s step %d %v: structural operation %v inside a locking callback did not panic", b.Name, it.Step, op, a)
